@@ -6,7 +6,7 @@ import vlib
 SEM = os.path.join(vlib.VERIF, "spec", "sem")
 
 
-def run_scenarios(res, scen_list, monitor, spec_dir=SEM, tag="", timeout=1500, sub="seq", par=16, procs=1, race=False, crash_is_violation=True, relayout_p=0.0):
+def run_scenarios(res, scen_list, monitor, spec_dir=SEM, tag="", timeout=1500, sub="seq", par=16, procs=1, race=False, crash_is_violation=True, relayout_p=0.0, retype_p=0.0):
     """scen_list: list of scenario dicts without 'tr'. Returns number of traces validated. Adds violations to res."""
     if not scen_list:
         return 0
@@ -18,9 +18,18 @@ def run_scenarios(res, scen_list, monitor, spec_dir=SEM, tag="", timeout=1500, s
     if relayout_p > 0:
         import random, layout
         lrng = random.Random(vlib.seed() * 7919 + len(scen_list))
+    trng = None
+    if retype_p > 0:
+        import random
+        trng = random.Random(vlib.seed() * 104729 + len(scen_list))
     with open(sp, "w") as f:
         for i, sc in enumerate(scen_list):
             sc = dict(sc, tr=i + 1)
+            if trng is not None and not sc.get("noretype") and trng.random() < retype_p:
+                # the same numbers under other Go types (int / int32 / int64 / float32 / float64): values, not types, decide
+                sc["rows"] = [retype_row(r, trng) for r in sc.get("rows", [])]
+                if sc.get("ops"):
+                    sc["ops"] = [dict(o, row=retype_row(o["row"], trng)) if o.get("op") in ("emit", "sync") and isinstance(o.get("row"), dict) else o for o in sc["ops"]]
             if lrng is not None and "sql" in sc and not sc.get("nolayout") and lrng.random() < relayout_p:
                 # C11: keyword case and whitespace / line breaks between tokens change nothing - every family runs part of its
                 # statements in another layout (the monitor still judges by the meta line, which describes the statement)
@@ -112,6 +121,20 @@ def run_scenarios(res, scen_list, monitor, spec_dir=SEM, tag="", timeout=1500, s
         if len(scen) > 1:
             res.cov["samples"].append(scen[len(scen)])
     return n
+
+
+def retype_row(r, rng):
+    out = {}
+    for k, v in r.items():
+        # not retyped: timestamps, and partition / grouping columns (whether 8 and 8.0 are one partition is not claimed: the engine's
+        # partition key is type-tagged); float32 only where it represents the number exactly
+        if isinstance(v, bool) or not isinstance(v, int) or k in ("ts", "g", "k", "kk"):
+            out[k] = v
+        else:
+            t = rng.choice(["$i", "$i", "$i64", "$i32", "$f", "$f32"] if abs(v) <= 4096 else ["$i", "$i64", "$f"])
+            if t == "$i32" and abs(v) >= 2 ** 31: t = "$i64"
+            out[k] = {t: float(v) if t in ("$f", "$f32") else v}
+    return out
 
 
 def model(res, spec_dir, module, cfg_text, name, constants, workers=8, timeout=900, must_hold=True):
